@@ -10,7 +10,7 @@
    codec built from an executable model of gzip decompression that is compared with the real zlib on every run (below).
    Only statements here; proofs are `exact <lemma>`. *)
 From Coq Require Import List Arith Bool NArith ZArith.
-From RxVerif Require Import Compress.Inflate Compress.InflateProofs.
+From RxVerif Require Import Compress.Inflate Compress.InflateProofs Compress.DeflateEnc Compress.DeflateEncProofs.
 From RxVerif Require Import Compress.Wrapper Compress.WrapperProofs Compress.InflateCodec.
 Import ListNotations.
 
@@ -128,8 +128,9 @@ Print Assumptions C16_unrepaired_zstd_wrapper_refuted.
    stream the model accepts, Huffman blocks included); Done implies the CRC-32 / ISIZE trailer matches; the stored
    encoder round-trips every byte list; and the laws H1-H3 hold for the codec built from the model, so that the
    round-trip and truncation theorems above hold for it without premises.
-   Not proved: that inflate's OUTPUT on Huffman blocks is what RFC 1951 / zlib's compressor mean (tied by the
-   comparison with zlib only); zlib's compressor; zstandard (not modelled at all).
+   Proved for the fixed-Huffman code (literals and distance-1 runs) by an encoder round trip; not proved: that inflate's
+   OUTPUT on dynamic-Huffman blocks and on matches at distances above 1 is what RFC 1951 means (tied by the comparison
+   with zlib only); zlib's compressor; zstandard (not modelled at all).
    --------------------------------------------------------------------------------------------- *)
 Theorem C16_gunzip_complete_stream_stays_complete : forall p d r,
   gunzip p = Done d r -> forall x, gunzip (p ++ x) = Done d (r ++ x).
@@ -159,6 +160,17 @@ Print Assumptions C16_gunzip_done_checks_trailer.
 Theorem C16_gzip_stored_roundtrip : forall d, gunzip (gzip_stored d) = Done d [].
 Proof. exact gunzip_stored_roundtrip_any. Qed.
 Print Assumptions C16_gzip_stored_roundtrip.
+(* inflate inverts the RFC's fixed-Huffman encoding: two encoders that emit ONE block of type 01 (fixed codes of RFC 1951
+   3.2.6) - every byte as a literal; and with runs of one byte as length/distance pairs (distance 1, lengths 3..258: the
+   length symbols with their extra bits, the distance code, the overlapping window copy).  The real zlib decompresses their
+   output to the payload (checked when the model was written; the model side is a theorem).  Still only compared with
+   zlib, not proved: dynamic-Huffman headers, distances above 1, multi-block Huffman streams. *)
+Theorem C16_gunzip_inverts_fixed_huffman_literals : forall d, bytes d -> gunzip (gzip_fixed d) = Done d [].
+Proof. exact gunzip_fixed_roundtrip. Qed.
+Print Assumptions C16_gunzip_inverts_fixed_huffman_literals.
+Theorem C16_gunzip_inverts_fixed_huffman_runs : forall d, bytes d -> gunzip (gzip_fixed_rle d) = Done d [].
+Proof. exact gunzip_fixed_rle_roundtrip. Qed.
+Print Assumptions C16_gunzip_inverts_fixed_huffman_runs.
 (* the round-trip and truncation statements for the gzip codec of the model: no premises left *)
 Theorem C16_gzip_model_roundtrip_any_rechunking : forall (skip : bool) (chunks rechunk : list (list Z)),
   concat rechunk = payload (concat (gz_compress chunks)) ->
